@@ -30,12 +30,15 @@ import (
 	"github.com/emitter-io/emitter/internal/event"
 	"github.com/emitter-io/emitter/internal/message"
 	"github.com/emitter-io/emitter/internal/network/mqtt"
+	"github.com/emitter-io/emitter/internal/provider/contract"
 	"github.com/emitter-io/emitter/internal/provider/logging"
 	"github.com/emitter-io/emitter/internal/provider/storage"
 	"github.com/emitter-io/emitter/internal/security"
 	"github.com/emitter-io/emitter/internal/security/license"
 	"github.com/emitter-io/emitter/internal/service"
 	"github.com/emitter-io/emitter/internal/service/cluster"
+	"github.com/emitter-io/emitter/internal/service/fake"
+	"github.com/emitter-io/emitter/internal/service/presence"
 	"github.com/emitter-io/emitter/internal/service/survey"
 	"github.com/emitter-io/emitter/internal/zzverif/vlib"
 	"github.com/golang/snappy"
@@ -769,6 +772,33 @@ func lateAnswers(peers, early, late int) bool {
 	}
 }
 
+// ---- presence answers from peers ------------------------------------------------------------------------
+
+type allowAll struct{}
+
+func (allowAll) Authorize(ch *security.Channel, perm uint8) (contract.Contract, security.Key, bool) {
+	k := security.Key(make([]byte, 24))
+	k.SetContract(1)
+	k.SetPermissions(perm)
+	return nil, k, true
+}
+
+// presenceAnswer: a client asks for the presence status of a channel; the one peer of the cluster answers
+// the survey with [answer].  Class and allocation of the whole request.
+func presenceAnswer(answer []byte) (class int, alloc uint64) {
+	sv := survey.New(surveyPubSub{}, surveyGossip{1})
+	ps := presence.New(allowAll{}, surveyPubSub{}, sv, message.NewTrie())
+	req := []byte(`{"key":"k","channel":"a/b/","status":true}`)
+	go func() {
+		time.Sleep(30 * time.Millisecond) // the survey is under way: the peer answers
+		sv.Send(message.New(message.Ssid{0, 3939663052, 1}, []byte("response"), answer))
+	}()
+	return guarded(func() error {
+		ps.OnRequest(&fake.Conn{}, req)
+		return nil
+	})
+}
+
 // ---- main ---------------------------------------------------------------------------------------
 
 func main() {
@@ -952,6 +982,31 @@ func main() {
 			sh.Add(vlib.App("CSurveyReq", vlib.N(uint64(which)), vlib.Bytes(pl), vlib.N(uint64(class)), vlib.N(alloc)),
 				map[string]interface{}{"op": "survey request from a peer", "handler": []string{"ssdstore", "presence"}[which], "bytes": len(pl), "class": class, "alloc": alloc}, kind, true)
 		}
+	}
+
+	// 3a'. answers of a peer to a presence survey: lists of (id, username) with inflated counts / lengths
+	for i := 0; i < 12*cfg.Mult; i++ {
+		var ans []byte
+		n := uint64(r.Intn(3))
+		announced := n
+		kind := "presence-answer/well-formed"
+		if r.Intn(2) == 0 {
+			announced = []uint64{5, 1 << 16, 1 << 22, 1 << 25}[r.Intn(4)]
+			kind = "presence-answer/count-inflated"
+		}
+		for x := announced; ; x >>= 7 {
+			if x < 0x80 {
+				ans = append(ans, byte(x))
+				break
+			}
+			ans = append(ans, byte(x)|0x80)
+		}
+		for k := uint64(0); k < n; k++ {
+			ans = append(ans, 2, 'i', 'd', 1, 'u')
+		}
+		class, alloc := presenceAnswer(ans)
+		sh.Add(vlib.App("CSurveyReq", "2", vlib.Bytes(ans), vlib.N(uint64(class)), vlib.N(alloc)),
+			map[string]interface{}{"op": "answer of a peer to a presence survey", "bytes": len(ans), "class": class, "alloc": alloc}, kind, true)
 	}
 
 	// 3b. a subscriber that stops reading; late and surplus survey answers
